@@ -157,7 +157,8 @@ func runC15(c *core.Ctx) {
 		srv.Write(files)
 		runArgs := func(args ...string) run.Result {
 			c.Eval(1)
-			return srv.App1(append([]string{"-d", "food.yaml", "-l", "log.yaml"}, args...), nil)
+			full := append([]string{"-d", "food.yaml", "-l", "log.yaml"}, args...)
+			return srv.App1(respell(c.Rng("spell", i), full), nil)
 		}
 		doc := func(note string, args []string, a, b run.Result) caseDoc {
 			return caseDoc{Files: files, Args: args, Note: note, Observed: map[string]any{"this": resDoc(a), "other": resDoc(b)}}
